@@ -291,6 +291,20 @@ class Path:
                 elif t.get("t") is None:
                     yield pos, b, t
 
+    def decisions(self):
+        """(pos, block, tested term, truth) for every boolean branch taken on the path, with leading
+        negations folded into the truth value (`if !x` / `let y = !x; if y` read as a test of x)."""
+        for i, blk in enumerate(self.blocks[:-1]):
+            t = self.body.blocks[blk]["term"]
+            if t["k"] != "switch" or "0" not in t["vals"]:
+                continue
+            v = self.origin_op(t["discr"], i, None)
+            truth = self.blocks[i + 1] != t["tgts"][t["vals"].index("0")]
+            while isinstance(v, tuple) and v[0] == "un" and v[1] == "Not":
+                v = v[2]
+                truth = not truth
+            yield i, blk, v, truth
+
     def return_value(self):
         if self.end != "return":
             return None
